@@ -481,3 +481,81 @@ Proof.
   rewrite T. rewrite (strptime_fmt3 tm ltac:(lia) HM HD).
   rewrite make_datetime_ok; [reflexivity|lia|exact (valid_dt_date tm Vm)].
 Qed.
+
+(* ---------------- what the floors mean in seconds ---------------- *)
+Lemma ss_of_epoch e : ss (civil_of_epoch e) = e mod 60.
+Proof.
+  unfold civil_of_epoch. destruct (civil_from_days (e / 86400)) as [[y m] d]. cbn [ss].
+  symmetry. apply Znumtheory.Zmod_div_mod; [lia|lia|]. exists 1440. reflexivity.
+Qed.
+
+Lemma epoch_minute_floor_t t : epoch_of_civil (minute_floor t) = epoch_of_civil t - ss t.
+Proof. destruct t as [y m d h mn s]. unfold epoch_of_civil, minute_floor. cbn [yr mo dy hh mi ss]. lia. Qed.
+
+Lemma epoch_minute_floor e : epoch_of_civil (minute_floor (civil_of_epoch e)) = e - e mod 60.
+Proof.
+  rewrite epoch_minute_floor_t, ss_of_epoch.
+  destruct (epoch_of_civil_of_epoch e) as [E _]. rewrite E. reflexivity.
+Qed.
+
+Lemma epoch_day_floor_t t :
+  0 <= hh t <= 23 -> 0 <= mi t <= 59 -> 0 <= ss t <= 59 ->
+  epoch_of_civil (day_floor t) = epoch_of_civil t - epoch_of_civil t mod 86400.
+Proof.
+  destruct t as [y m d h mn s]. unfold epoch_of_civil, day_floor. cbn [yr mo dy hh mi ss]. intros Hh Hm Hs.
+  assert (M : (days_from_civil y m d * 86400 + h * 3600 + mn * 60 + s) mod 86400 = h * 3600 + mn * 60 + s).
+  { symmetry. apply (Z.mod_unique _ _ (days_from_civil y m d)); lia. }
+  rewrite M. lia.
+Qed.
+
+Lemma epoch_day_floor e : epoch_of_civil (day_floor (civil_of_epoch e)) = e - e mod 86400.
+Proof.
+  destruct (epoch_of_civil_of_epoch e) as [E V]. destruct (valid_dt_time _ V) as (Hh & Hm & Hs).
+  rewrite (epoch_day_floor_t _ Hh Hm Hs), E. reflexivity.
+Qed.
+
+(* text level *)
+Corollary ls_date_recent_text half two off mtime now now' :
+  consts_ok half two = true ->
+  now <= now' <= now + HOUR ->
+  now - half_year_spec + DAY < mtime <= now ->
+  let tm := civil_of_epoch (mtime + off) in
+  1000 <= yr tm -> yr (client_now off now') <= 9999 ->
+  parse_ls_date half two (build_list_mtime half off mtime now) (client_now off now')
+  = Some (format_date_time tm).
+Proof.
+  intros C Hn Hm tm HY HY'. unfold parse_ls_date.
+  rewrite (ls_date_recent half two off mtime now now' C Hn Hm HY HY'). reflexivity.
+Qed.
+
+Corollary ls_date_old_or_future_text half two off mtime now nowdt :
+  half <= half_year_spec ->
+  mtime <= now - half_year_spec \/ now < mtime ->
+  let tm := civil_of_epoch (mtime + off) in
+  1000 <= yr tm <= 9999 ->
+  parse_ls_date half two (build_list_mtime half off mtime now) nowdt
+  = Some (fmt_14 (day_floor tm)).
+Proof.
+  intros C Hm tm HY. unfold parse_ls_date.
+  rewrite (ls_date_old_or_future half two off mtime now nowdt C Hm HY). reflexivity.
+Qed.
+
+(* ---------------- inside the excluded window the year can be wrong ---------------- *)
+(* (a) same year: 1 s younger than the half year, the seconds dropped by the minute format push
+       the apparent age over the threshold; (b) across New Year: 1 h younger than the half year,
+       365 d - HALF < age, so the year is not corrected back *)
+Lemma window_witness_same_year :
+  let half := half_year_spec in let two := 63115200 in
+  let now := 1725148800 in let mtime := now - half + 1 in
+  now - half < mtime <= now - half + DAY /\
+  parse_ls_date_dt half two (build_list_mtime half 0 mtime now) (client_now 0 now)
+  = Some (mkdt 2025 3 2 9 5 0) /\ yr (civil_of_epoch mtime) = 2024.
+Proof. vm_compute. repeat split; congruence. Qed.
+
+Lemma window_witness_new_year :
+  let half := half_year_spec in let two := 63115200 in
+  let now := 1740787200 in let mtime := now - half + 3600 in
+  now - half < mtime <= now - half + DAY /\
+  parse_ls_date_dt half two (build_list_mtime half 0 mtime now) (client_now 0 now)
+  = Some (mkdt 2025 8 30 10 5 0) /\ yr (civil_of_epoch mtime) = 2024.
+Proof. vm_compute. repeat split; congruence. Qed.
